@@ -13,7 +13,10 @@ Pops(k) == CASE MaxFiles = 1 -> {{a} : a \in Pool(k)}
 Pairs == Pops(1) \X Pops(2)
 
 VARIABLE FG
-Init == FG \in (IF NSample = 0 THEN Pairs ELSE RandomSubset(NSample, Pairs))
+\* sampling draws each side separately: the product set is too large to enumerate for three files per side
+Root == CHOOSE r \in 1..1000 : r * r >= NSample /\ (r - 1) * (r - 1) < NSample
+Init == IF NSample = 0 THEN FG \in Pairs
+        ELSE \E F \in RandomSubset(Root, Pops(1)), G \in RandomSubset(Root, Pops(2)) : FG = <<F, G>>
 Next == UNCHANGED FG
 
 Periods == {<<s, e>> \in (0..T) \X (0..T) : s < e}
